@@ -102,7 +102,7 @@ def mutate(rng: Rng, text: str, force_tag: bool = False, force_kind: Optional[st
     toks = TOKEN.findall(text)
     if len(toks) < 4:
         return text, "none"
-    kind = rng.choice(["delete", "dup", "swap", "truncate", "bracket", "keyword", "quote", "replace", "replace", "replace_open", "squeeze", "squeeze", "squeeze_all", "ident_pos", "ident_pos"])
+    kind = rng.choice(["delete", "dup", "swap", "truncate", "bracket", "keyword", "quote", "replace", "replace", "replace_open", "squeeze", "squeeze", "squeeze_all", "ident_pos", "ident_pos", "odd_element", "odd_element"])
     kind = force_kind or kind
     i = rng.randrange(len(toks))
     if kind == "ident_pos":
@@ -114,6 +114,21 @@ def mutate(rng: Rng, text: str, force_tag: bool = False, force_kind: Optional[st
                if toks[code[k_]].upper() in ("FROM", "JOIN", "AS", "TABLE", "INTO", "UPDATE") and (toks[code[k_ + 1]][0].isalpha() or toks[code[k_ + 1]][0] in "_\"`[")]
         if pos:
             toks[rng.choice(pos)] = rng.choice(["1e5", "2E3", "10e2", "_1", "x1e5", "e5", "\"1e5\"", "a$b", "tbl#1", "été"])
+            return "".join(toks), kind
+        kind = "replace"
+    if kind == "odd_element":
+        # a TWO-token select element at an expression start (after SELECT or a comma): an identifier of an
+        # unusual lexical class followed by a literal / alias / bracket - the place where one token is tried as
+        # column reference, function name, data type and alias in turn (and cached under each)
+        code = [j for j, t in enumerate(toks) if not t.isspace()]
+        pos = [j for j in code if toks[j].upper() == "SELECT" or toks[j] == ","]
+        if pos:
+            j = rng.choice(pos)
+            ident = rng.choice(["2col", "1st", "1e5", "_1", "x1e5", "3rd_val", "e5", "\"2 col\"", "a$b", "été", "int", "date"])
+            follow = rng.choice(["'abc'", "'x'", "\"q\"", "1", "(1)", "AS y", "y", "'a' 'b'"])
+            toks.insert(j + 1, " " + ident + " " + follow + ("," if toks[j].upper() == "SELECT" else "") + " ")
+            if toks[j] == ",":
+                toks.insert(j + 2, ",")
             return "".join(toks), kind
         kind = "replace"
     if kind == "squeeze_all":
@@ -312,8 +327,32 @@ def gen_order(rng: Rng, n: int) -> dict:
         items.append({"text": text, "dialect": d_use, "src": src, "mut": mut})
         if rng.chance(0.25):
             items.append({"text": text, "dialect": rng.choice([x for x in ds if x != d_use] or ds), "src": src, "mut": mut})
+    pair = None
+    if rng.chance(0.75):
+        # the "aborted parse, then its near twin" pair of the full runs (see gen_inputs), as two more items:
+        # adjacent in order A (abort, then twin), so in the reversed order B the twin comes BEFORE the abort
+        d = rng.choice(ds)
+        fx = fixtures(d)
+        parts = []
+        for _ in range(2):
+            with open(rng.choice(fx), encoding="utf-8", errors="replace") as f:
+                parts.append(f.read())
+        base = parts[0].rstrip()
+        base += ("" if base.endswith(";") else ";") + "\n" + parts[1]
+        toks = TOKEN.findall(base)
+        code = [j for j, t in enumerate(toks) if not t.isspace()]
+        if len(code) >= 6:
+            ta, tb = list(toks), list(toks)
+            ta[rng.choice(code[len(code) // 2:])] = "("
+            tb[rng.choice(code[: len(code) // 2])] = rng.choice(["(", ")", ",", "x", "1", "SELECT", "FROM", "AS", "+", ";", "'s'"])
+            pair = (len(items), len(items) + 1)
+            items.append({"text": "".join(ta), "dialect": d, "src": "pair", "mut": "pair_abort"})
+            items.append({"text": "".join(tb), "dialect": d, "src": "pair", "mut": "pair_twin"})
     perm_a = list(range(len(items)))
     rng.shuffle(perm_a)
+    if pair:
+        perm_a.remove(pair[1])
+        perm_a.insert(perm_a.index(pair[0]) + 1, pair[1])
     perm_b = list(reversed(perm_a))
     if rng.chance(0.5):
         # grouped by dialect, the dialect order reversed: every dialect is once the first and once the last user
@@ -498,7 +537,7 @@ def run_one(ctx: Any, seed: int, tier: str, replay: Optional[dict] = None) -> di
                             probes["timeouts"] += 1
                             break
                         it = order["items"][i]
-                        r = nd_o.call("parse", text=it["text"], dialect=it["dialect"], templater="raw", handle="shared" if i % 2 else None)
+                        r = nd_o.call("parse", text=it["text"], dialect=it["dialect"], templater="raw", handle="shared" if (i % 2 or it.get("src") == "pair") else None)
                         if "timeout" in r:
                             probes["timeouts"] += 1
                             continue
